@@ -138,7 +138,7 @@ Qed.
 Lemma split_last_app : forall {A} (l : list A) x, split_last (l ++ [x]) = Some (l, x).
 Proof. intros. unfold split_last. rewrite rev_app_distr. simpl. rewrite rev_involutive. reflexivity. Qed.
 
-Lemma number_from_zseq : forall (f : Z -> str) n lo,
+Lemma number_from_zseq : forall (f : Z -> list ascii) n lo,
   number_from lo (map f (zseq lo n)) = map (fun k => (Some k, f k)) (zseq lo n).
 Proof.
   induction n as [|n IH]; intros lo; [reflexivity|].
